@@ -3,9 +3,11 @@ package hcons
 import (
 	"bytes"
 	"fmt"
+	"os"
 	"runtime/debug"
 	"sort"
 	"strings"
+	"sync"
 	"testing"
 	"time"
 
@@ -13,6 +15,7 @@ import (
 	"github.com/icon-project/goloop/common/codec"
 	"github.com/icon-project/goloop/common/crypto"
 	"github.com/icon-project/goloop/common/db"
+	"github.com/icon-project/goloop/common/log"
 	"github.com/icon-project/goloop/consensus"
 	"github.com/icon-project/goloop/module"
 	"github.com/icon-project/goloop/service/state"
@@ -417,6 +420,11 @@ func c05Check(rec *ev.Rec, c *c05Case) string {
 
 type c05T struct{ errs []string }
 
+var (
+	c05NullOnce sync.Once
+	c05Null     *os.File
+)
+
 func (t *c05T) Errorf(format string, args ...interface{}) {
 	t.errs = append(t.errs, fmt.Sprintf(format, args...))
 }
@@ -461,6 +469,13 @@ func c05NewImportEnv(n int) (env *c05ImportEnv, problem string) {
 	}
 	gs := fmt.Sprintf(`{"accounts":[{"name":"treasury","address":"hx1000000000000000000000000000000000000000","balance":"0x0"},{"name":"god","address":"hx0000000000000000000000000000000000000000","balance":"0x0"}],"message":"","nid":"0x1","chain":{"validatorList":[%s]}}`, strings.Join(vals, ","))
 	tt := &c05T{}
+	// the node's logger (trace level) captures os.Stderr when it is created: give it /dev/null
+	c05NullOnce.Do(func() { c05Null, _ = os.OpenFile(os.DevNull, os.O_WRONLY, 0) })
+	if c05Null != nil {
+		saved := os.Stderr
+		os.Stderr = c05Null
+		defer func() { os.Stderr = saved }()
+	}
 	node := gtest.NewNode(tt, gtest.UseGenesis(gs), gtest.UseWallet(gen.WalletFromIndex(0)))
 	env = &c05ImportEnv{tt: tt, node: node}
 	node.ProposeFinalizeBlock(consensus.NewEmptyCommitVoteList())
@@ -543,7 +558,7 @@ func TestC05(t *testing.T) {
 	rec := ev.New("C05", "validator sets of 1..10 keys, a target (height, round, block id, part-set id + app data), a commit vote list = valid precommits of a drawn subset of validators (size biased to the 2/3 threshold and +-1) plus 0..3 bad items (identical duplicate, second signature of the same validator, outsider key, signature over another block/round/part-set/app-data/height/vote type, altered timestamp, random 65 bytes, V not in {0,1}, 64-byte, empty, all-zero, one flipped bit) in drawn order, encoded to the wire form and decoded with NewCommitVoteSetFromBytes; non-trivial = number of good items within +-1 of the threshold, or exactly one bad item among enough good ones; distinct by the rendered list")
 	defer rec.Flush(t)
 	t.Run("lists", func(t *testing.T) {
-		ev.Check(t, 1200, 6000, func(rt *rapid.T) {
+		ev.Check(t, 2500, 30000, func(rt *rapid.T) {
 			c := c05Draw(rt)
 			_, nbad, signers := c.ref()
 			need := c.n*2/3 + 1
@@ -570,7 +585,12 @@ func TestC05(t *testing.T) {
 		})
 	})
 	t.Run("import", func(t *testing.T) {
-		ev.Check(t, 60, 400, func(rt *rapid.T) {
+		// the package-global logger (db writer etc.) is at debug level: quieten it for this sub-check
+		gl := log.GlobalLogger()
+		lv := gl.GetLevel()
+		gl.SetLevel(log.WarnLevel)
+		defer gl.SetLevel(lv)
+		ev.Check(t, 80, 1500, func(rt *rapid.T) {
 			n := rapid.SampledFrom([]int{1, 2, 3, 4, 4, 5, 6, 7, 7, 10}).Draw(rt, "n")
 			env, problem := c05NewImportEnv(n)
 			if env != nil {
